@@ -25,7 +25,7 @@ META = {
 }
 RULE = ("valid: generated workspaces x styles, all files; intrinsic sweep: every (module, member) of intrinsic.modules.json; seeded: program x class x position "
         "with classes dup-decl, mask-host, open-block-at-bare-end, unknown-module, type-not-accessible, dummy-undeclared (also with IMPLICIT NONE only inherited from 1 or 2 hosts up), intent-not-arg, second-contains, "
-        "outside-scope x{contains, implicit, public, private}, import-outside-interface, use-after-implicit, proc-before-contains, proc-in-type, proc-in-block, "
+        "outside-scope x{contains, implicit, public, private}, import-outside-interface, use-after-implicit (next line and same line after `;`), proc-before-contains, proc-in-type, proc-in-block, "
         "deferred-unimplemented, long-line; evaluations = diagnostics passes judged; distinct = (program, class, position)")
 ASSUME = ["seeded programs need not be valid Fortran otherwise", "message wording is free"]
 
@@ -181,6 +181,7 @@ def positions(w, rng, limit):
             if others:
                 mn = others[0].name
                 out.append(("use-after-implicit", f, (lambda lines=lines, il=il, mn=mn, pad=pad: (ins(lines, il + 1, [f"{pad}use {mn}"]), {"sev": 1, "lines": {il, il + 1}, "word": None}))))
+                out.append(("use-after-implicit-same-line", f, (lambda lines=lines, il=il, mn=mn: (lines[:il] + [lines[il].rstrip() + f"; use {mn}"] + lines[il + 1:], {"sev": 1, "lines": {il}, "word": None}))))
             # 8 second CONTAINS / 12 procedure before CONTAINS
             for cl in scope_lines(w, f, s, "contains"):
                 out.append(("second-contains", f, (lambda lines=lines, cl=cl: (ins(lines, cl + 1, [lines[cl]]), {"sev": 1, "lines": {cl, cl + 1}, "word": None}))))
